@@ -62,7 +62,7 @@ def check_C01(run, replay):
                 "(depth<=5, <=60 nodes, <=200 pure strategies per player; one third pure, one third sparse, one third "
                 "full-support profiles; half dyadic); TLC evaluates spec/Game.tla (expected utility, brute-force best "
                 "response over all pure strategies) exactly; replay compares get_info() at 1e-11; non-trivial = the "
-                "game has at least one multi-action infoset; distinct by canonical JSON of the case; plus the valid trees of U-tiny "
+                "game has at least one multi-action infoset; distinct by canonical JSON of the case; every fourth case with a root decision also as its EXTREME variant (root weights 2^60 : 1, payoffs x 2^60 below the rare action: utility and the other player's regret are twice those of the even mixture); plus the valid trees of U-tiny "
                 "(MC_Build's universe, hash slice) x every profile on the grid {(1,0),(0,1),(1,1)} per infoset; "
                 "model: Eval.tla (operational evaluator: collect, pop in ANY admissible order, search) checked by TLC on the "
                 "same cases and on U-tiny for NoBadRead / NoUnderflow / ResolvedLeavesFirst / AllReachedResolved / "
